@@ -138,5 +138,10 @@ func S2KparamsToItertions(s2kparams string) (int, error) {
 	if err != nil {
 		return s2kParamsZero, errors.New("Invalid s2kparams, cannot convert to big endian int32")
 	}
+	if i == 0 {
+		// The parameter is read as in RFC 3962 section 4 (RFC 8009 section 4): four zero octets stand for 2^32
+		// iterations, not for none. That is beyond what StringToKey accepts.
+		return s2kParamsZero, errors.New("Invalid s2kparams, an iteration count of zero stands for 2^32 iterations, more than the supported maximum")
+	}
 	return int(i), nil
 }
